@@ -80,7 +80,7 @@ func genList(rng *rand.Rand, n int, prefix, att, side, mode string, k *int64) []
 		*k++
 		s := &mwSpec{ID: fmt.Sprintf("%s%d", prefix, i), Att: att, Side: side, RW: rwObserve, K: *k}
 		if mode == "rewriting" {
-			switch r := rng.Intn(25); {
+			switch r := rng.Intn(27); {
 			case r < 5:
 				s.RW = rwObserve
 			case r < 11:
@@ -93,11 +93,13 @@ func genList(rng *rand.Rand, n int, prefix, att, side, mode string, k *int64) []
 				s.RW = rwInject
 			case r < 24:
 				s.RW = rwCtx
+			case r < 26:
+				s.RW = rwInjectInPlace
 			default:
 				s.RW = rwClear
 			}
 		}
-		if s.RW == rwAnnotate || s.RW == rwInject {
+		if s.RW == rwAnnotate || s.RW == rwInject || s.RW == rwInjectInPlace {
 			s.Pad = []int{0, 0, 40, 200, 256, 257, 300, 2000, 70000}[rng.Intn(9)]
 		}
 		out = append(out, s)
